@@ -209,6 +209,9 @@ static void op_c08_sweep(Exec& x, const Json& op, int)
 		if (cs.err == EIO && r1.exit_code != 0 && r1.exit_code < 90) {
 			int64_t eio = summary_value(tags, "error_io");
 			if (eio == 0) x.violation("C08", "io-error-not-counted", when + ": summary:error_io is 0", focus);
+			// every failing call is one error, whatever the cache depth
+			// (failures of several writers reported by the same io_write_next count once per kind: at most one error per failed call)
+			else if (!prehash_stop && eio > 0 && (unsigned)eio > fired) x.violation("C08", "io-error-miscounted", when + strf(": summary:error_io is %lld for %u failed calls", (long long)eio, fired), focus);
 		}
 
 		// 2. the stripe is not recorded as synced and healthy unless its parity really is right
